@@ -200,3 +200,40 @@ theorem closed_lock_owner (cfg : Cfg) (s : St) (h : Reach (sys cfg) s) (i : Nat)
   ((reach_close cfg s h).2.1 i hl).1
 
 end Wm.GcReg
+
+namespace Wm.GcReg
+
+/-- **every subscription registered for the topic when the message is handed over gets a sender, and nobody else**:
+    the `sendMessage` step of a Publish on topic `t` starts exactly one sender goroutine per subscription registered
+    for `t` at that moment – none for subscriptions of other topics – and records them as the ones the dispatcher of
+    that message waits for -/
+theorem send_starts_one_sender_per_registered (s s' : St) (i t m : Nat) (r : List Nat) (ao : Option (Nat × Nat))
+    (ha : stepPub s i t (m :: r) .send ao = some s') :
+    s'.started = s.started ++ (subsOf s t).map (fun sid => (sid, m)) ∧
+    s'.disp = s.disp ++ [subsOf s t] ∧
+    (∀ sid, (sid, m) ∈ (subsOf s t).map (fun sid => (sid, m)) ↔ (sid, t) ∈ s.subs) := by
+  have hmem : ∀ sid, (sid, m) ∈ (subsOf s t).map (fun sid => (sid, m)) ↔ (sid, t) ∈ s.subs := by
+    intro sid
+    simp only [subsOf, List.mem_map, List.mem_filter]
+    constructor
+    · rintro ⟨a, ⟨⟨b1, b2⟩, ⟨hb, hbt⟩, hba⟩, ha⟩
+      injection ha with ha _
+      subst ha
+      simp at hbt hba
+      subst hbt; subst hba; exact hb
+    · intro h
+      exact ⟨sid, ⟨(sid, t), ⟨h, by simp⟩, rfl⟩, rfl⟩
+  simp only [stepPub] at ha
+  split at ha <;> (simp at ha; subst ha; exact ⟨by simp [setTh], by simp [setTh], hmem⟩)
+
+/-- in blocking mode the next message of a batch is handed over only after the wait for the previous one ended:
+    from `wait d` the only step of the Publish thread is the one guarded by `blocking_publish_waits` -/
+theorem blocking_order (s s' : St) (i t d : Nat) (rest : List Nat) (ao : Option (Nat × Nat))
+    (ha : stepPub s i t rest (.wait d) ao = some s') :
+    s' = setTh s i (.pub t rest .send ao) ∧ s'.started = s.started := by
+  simp only [stepPub] at ha
+  split at ha
+  · simp at ha; subst ha; exact ⟨rfl, by simp [setTh]⟩
+  · simp at ha
+
+end Wm.GcReg
